@@ -153,7 +153,8 @@ def check(case):
     if case["torch_seed"] % 4 == 0 and n <= 4 and case["epochs"] <= 4:
         # re-entrant use: a further callback makes the public read-only calls of a monitoring script (normalisation, psi / rho, the three gradient
         # functions, NLL, a save to memory) on the trained state from inside every hook; the update rule must be unaffected
-        kw["callbacks"] = [gen.busy_callback(rng=False, other=False), cb, guard] if case["torch_seed"] % 8 == 0 else [cb, guard, gen.busy_callback(rng=False, other=False)]
+        # (no sampling of the trained state - this check records its chains -, but a one-epoch fit() of ANOTHER state is part of it)
+        kw["callbacks"] = [gen.busy_callback(rng=False, other=True), cb, guard] if case["torch_seed"] % 8 == 0 else [cb, guard, gen.busy_callback(rng=False, other=True)]
     if case["gamma"] is not None:
         sk = case.get("sched_kind", "step1")
         if sk == "exp":
